@@ -6,14 +6,14 @@ PROP = dict(
             dict(name="e3", pkg=".", test="TestVerifC04E3", files=["mc/c04/*.go", "mc/c04/e3/*.go"], parts=["e3-receive-lockpoints", "e3-send-lockpoints"],
                  libs=["explore", "canon", "sched", "vsync"],
                  rewrite={f: [('"sync"', 'sync "github.com/refraction-networking/uquic/internal/verifmc/vsync"')]
-                          for f in ("receive_stream.go", "send_stream.go", "internal/flowcontrol/base_flow_controller.go")}),
+                          for f in ("receive_stream.go", "send_stream.go", "framer.go", "internal/flowcontrol/base_flow_controller.go")}),
             dict(name="race", pkg=".", test="TestVerifC04Race", files=["mc/c04/*.go", "mc/c04/race/*.go"], parts=["stream-race-pass"],
                  race=True, shards=4, gomaxprocs=4, env={"GORACE": "halt_on_error=1"}),
         ],
         crash_is_violation=True,
         level="model_checking", shards=1,
         level_text="Explicit-state model checking of the real flow-control code: one real connectionFlowController and two real streamFlowControllers, each shared (as in a bidirectional stream) by a real SendStream and a real ReceiveStream, are driven breadth-first through every operation sequence up to a depth bound by six alphabets (sender with byte-exact packet budgets, sender with blocking Writes, sender through the real framer, receiver with adversarial frames, receiver with window auto-tuning, and a loop-back world in which the frames of the real sender are delivered / lost / spuriously retransmitted to the real receiver and its MAX_* frames are fed back in any order). Every transition is executed on the real code and checked against a credit ledger (reference model), so there is no model/code gap. Right level because the property is an invariant over whole histories of a handful of counters, which is a finite space on a small lattice of cells chosen around the window boundaries.",
-        level_note="Trusted: the ledgers in mc/c04 (sender: highest offset on the wire vs largest delivered limit; receiver: advertised limits, consumed bytes, abandoned bytes), the reflective canonicaliser (wake-up channels and the derived context of the streams are not part of the state), the read-out of bytesRead / receiveWindowSize of the flow controllers by reflection (observation only). Bounds: 2 streams, windows of 2-6 cells (16/24 with auto-tuning), cells of 10/50/400 bytes, depth 5-8; windows in the MB range and more than 2 streams are not explored. Blocking behaviour of Read/Write is only exercised in states where the stream state says the call returns. The sender parts also carry C01's completion oracle (a send stream reports itself completed only when every byte written before Close was acknowledged); it is reported under C01 by the target C01.e1, and under key snd-completed-with-unacknowledged-data here. Supporting pass stream-race-pass: the same objects with writer, reader and frame pump on separate goroutines under the race detector (sampled, excluded from the counts; wall-clock time decides nothing in it).",
+        level_note="Trusted: the ledgers in mc/c04 (sender: highest offset on the wire vs largest delivered limit; receiver: advertised limits, consumed bytes, abandoned bytes), the reflective canonicaliser (wake-up channels and the derived context of the streams are not part of the state), the read-out of bytesRead / receiveWindowSize of the flow controllers by reflection (observation only). Bounds: 2 streams, windows of 2-6 cells (16/24 with auto-tuning), cells of 10/50/400 bytes, depth 5-8; windows in the MB range and more than 2 streams are not explored. Blocking behaviour of Read/Write is only exercised in states where the stream state says the call returns. The sender parts also carry C01's completion oracle (a send stream reports itself completed only when every byte written before Close was acknowledged); it is reported under C01 by the target C01.e1, and under key snd-completed-with-unacknowledged-data here. Supporting pass stream-race-pass: the same objects with writer, reader and frame pump on separate goroutines under the race detector (sampled, excluded from the counts; wall-clock time decides nothing in it). Target e3 (lock-point exploration, mc/lib/sched + vsync with Lock AND Unlock as scheduler points, preemption bound 2 [3]): application calls racing with the run loop on one real ReceiveStream (Read / Peek incl. callers that wait for more than has arrived, CancelRead against RESET_STREAM, RESET_STREAM_AT, FIN, window updates) and on one real SendStream (Write / Close / CancelWrite against popStreamFrame, OnAcked / OnLost, STOP_SENDING, MAX_STREAM_DATA), also through the real framer (a lost stream activation leaves written bytes unsent for ever); receive_stream.go, send_stream.go, framer.go and the flow controllers are import-rewritten to vsync from the working tree.",
         technique="explicit-state BFS over the real implementation with reference-model (credit ledger) oracle",
         deadline=dict(quick=90, thorough=900),
         rule="explicit-state BFS over real SendStream / ReceiveStream / framer / stream and connection flow controllers; successor = fresh instance + replay of the shortest path + one op",
